@@ -25,10 +25,10 @@ CLAIMED = {
  "C11": ("7/C11", "all valid dates with |year| <= 999,999,999: 7-byte layout and round trip; every byte string of each length 0..16: documented errors, receiver untouched on error, accepted => real calendar date with the written components, real dates accepted."),
  "C12": ("7/C12", "token level: every object of up to 2 members (thorough 3) drawn from 8 member kinds (value/unit in different key cases, unknown scalar and nested members, wrong-typed members), all 16 rule subsets, MaxObjectKeys 0..5, symbolic value digits and unit bytes, case-variant duplicate keys next to the other member in all six orders, against an order-independent oracle incl. the documented sentinel when exactly one rejection class applies; byte level (JSON token model): number/string/object/array templates x 7 kinds of trailing data x rules, and every truncation of three documents."),
  "C13": ("7/C13", "all 2^64 sizes: Shorten is exact, binary-unit, maximal; DefaultFormatter/String/PrettyString/PrettyHTML output equals digits grouped in threes + separator + unit for the 4 flag values."),
- "C14": ("7/C14", "all pairs of versions with valid pre-releases up to 3+3 bytes (thorough 4+4), full-range cores, arbitrary build strings: result in {-1,0,1}, antisymmetry, reflexivity, build ignored, equal => 0, Latest returns an argument and never the lower; Next* panic iff component = 2^64-1 (through recover) and otherwise a plain release strictly above; string helpers agree with value comparison and fail exactly on invalid text (all byte strings up to length 6, thorough 8)."),
+ "C14": ("7/C14", "all pairs of versions with valid pre-releases up to 3+3 bytes (thorough 4+4), full-range cores, arbitrary build strings: result in {-1,0,1}, antisymmetry, reflexivity, build ignored, equal => 0, Latest returns an argument and never the lower; Next* panic iff component = 2^64-1 (through recover) and otherwise a plain release strictly above (pre-release and build each absent or present); Latest of two versions that compare equal is one of the arguments with its own build; string helpers agree with value comparison and fail exactly on invalid text (all byte strings up to length 6, thorough 8)."),
  "C15": ("7/C15", "all triples of valid dates in years 0000-9999 and the four nil combinations: error iff from after to (with the sentinel), Contains iff inside the inclusive interval, bounds kept after the caller's variables change."),
  "C16": ("7/C16", "the five DefaultFormatters: symbolic prefix bytes (all 256 values) of length 0..3 (thorough 8; uu also 9 and 13) with spare capacity 0, 1, exact-fit, 64: prefix kept, suffix equals the nil-buffer output, caller's backing array untouched."),
- "C17": ("7/C17", "symbolic receiver pre-state (any field values, which subsumes values decoded by earlier calls) and every byte string up to the per-type bound (uu 30..46, date 0..11, roman 0..7, sem 0..7, size text 0..5, date binary 0..9, Scan over five dynamic types): failed UnmarshalText/UnmarshalBinary/Scan leave the receiver bit-identical, input bytes unchanged, string and []byte instantiations agree on value and on the fields the error message is built from, parsed values do not alias the input buffer."),
+ "C17": ("7/C17", "symbolic receiver pre-state (any field values, which subsumes values decoded by earlier calls) and every byte string up to the per-type bound (uu 30..46, date 0..11, roman 0..7, sem 0..7, size text 0..5, date binary 0..9, Scan over five dynamic types): failed UnmarshalText/UnmarshalBinary/Scan leave the receiver bit-identical, UnmarshalText agrees with the parser under its rule, a successful one stores exactly the parser's value over whatever the receiver held, a refusal wraps the parser's error (Unwrap, same sentinels), input bytes unchanged, string and []byte instantiations agree on value and on the fields the error message is built from, parsed values do not alias the input buffer."),
  "C18": ("7/C18", "no panic (every runtime-panic site and explicit panic is a verification condition) for every byte string up to the per-package bound incl. non-ASCII and invalid UTF-8, under a fully symbolic rule word and MaxInputLength >= 0, through every text entry point of date, roman, sem, size (text rules) and uu, the comparator and Ver.Valid on arbitrary field strings up to 3+3 bytes (thorough 4+4); limit contract with symbolic MaxInputLength at lengths 1..n, default-1, default, default+1 and 10x default (long inputs with concrete valid filler). size with JSON rules is covered on templates only (C12); memory consumption is not modelled."),
  "C19": ("7/C19", "all 2^126 pairs of 63-bit draws: version 4 / variant 1; each single one of the 122 free bits can be 0 and can be 1 (a required witness per bit: unsat is a violation); the ID is a GF(2)-affine map of the 126 draw bits with full rank on the 122 free positions, so every combination of the free bits occurs, each for exactly 16 draws (thorough also: adjacent pairs take all four values); lock discipline: the recorded lock/unlock/generator-use/package-variable events of RandomID, two threads, every interleaving: no two conflicting accesses unordered by happens-before (a racy schedule is confirmed with go test -race before it is reported). Uniqueness structurally: a feasible path drawing the ID from a generator created during the call and seeded only by the clock is a violation (confirmed by a native duplicate hunt)."),
  "C20": ("7/C20", "the six helpers (Marshal/Unmarshal x Text/Binary/JSON) on scripted marshaler/unmarshaler types (value and pointer receivers): one case with every combination of behaviour (right data, other data, error, error with data, panic, nil result for an expected empty text) x error predicate (none, AnyError, Error(matching), Error(other), ErrorHasPrefix, ErrorHasSuffix, ErrorMatch matching / valid non-matching / invalid pattern) x constraint (none, OnlyMarshal, OnlyUnmarshal) x before/after hooks (nil, pass, fail, panic), symbolic data bytes: a failure is recorded iff an independent per-case oracle says the case is not satisfied, no panic escapes; a type lacking the interface gives one failure and FailNow; in three-case lists through all six helpers, with every combination of direction constraints on the first two cases (a list may start with a case of the other direction), every failing applicable case is reported exactly once, other-direction cases are ignored, and a missing interface is still reported; pointer type parameters (T = *X) through the three unmarshal helpers with and without a TypeHelper. testify's assertions are contract stubs (documented result; Errorf exactly on false). One recorded finding (known_findings.json): a valid non-matching ErrorMatch pattern is not reported; pinned by the repo's own Test_ErrorMatch_Fail, so not repaired."),
